@@ -111,6 +111,7 @@ def run(case: dict, *, count_only: bool = False) -> Obs:
     from aioesphomeapi.core import APIConnectionError
 
     obs = Obs()
+    obs.K = float(case.get("K", 32.0))
     noise = bool(case.get("noise"))
     env = Env(noise_key=KEY if noise else None)
     obs.env = env
@@ -323,6 +324,10 @@ def run(case: dict, *, count_only: bool = False) -> Obs:
         elif act == "silence":
             dev.auto = set()
             env.log("fault_armed", what=act)
+        elif act == "stall":
+            # the peer stops reading for a while (send buffer full): writes queue up in the transport
+            tr.stall()
+            loop.sim_after(int(ev.get("for", 2000)) * TICK, tr.unstall)
         elif act == "chunk":
             if noise and sess.noise is None:
                 obs.skipped.append(f"{idx}:chunk-before-noise-ready")
@@ -554,6 +559,15 @@ def oracle_c07(obs: Obs) -> list[Violation]:
         if len(got) != 1:
             v.append(Violation("C07", f"c07:on_stop-count:{len(got)}", f"conn{cid} reached CONNECTED and closed; on_stop called {len(got)} times"))
             continue
+        # a peer that fell silent on an established session is a close cause of its own (ping timeout): with nothing
+        # arriving any more the session has to be ended and reported within 6.5 keepalive intervals (C10's bound)
+        sil = next((e for e in obs.trace if e["kind"] == "fault_armed" and e["what"] == "silence" and e["seq"] > connected_seq), None)
+        if sil is not None and cid == max(sl):
+            last_in = max([sil["t"]] + [e["t"] for e in obs.trace if e["kind"] == "deliver" and e["conn"] == cid])
+            t_closed = obs.trace[closed_seq]["t"]
+            if t_closed > last_in + 6.5 * getattr(obs, "K", 32.0) + 1.0:
+                v.append(Violation("C07", "c07:silent-peer-not-reported", f"conn{cid}: device silent since t={sil['t']:.2f}, last message delivered at t={last_in:.2f}, K={obs.K}: the session was still open at t={t_closed:.2f} (ping timeout due by {last_in + 6.5 * obs.K:.2f})"))
+                continue
         graceful = [e for e in obs.trace if e["kind"] == "graceful" and e["conn"] == cid and e["seq"] < closed_seq]
         # a DisconnectRequest counts once the session can handle peer requests, i.e. it was
         # delivered while the visible state was HANDSHAKE_COMPLETE or CONNECTED (a frame pushed
@@ -687,6 +701,7 @@ def _event_strategy(max_iter: int):
         st.sampled_from(FAULT_ACTS).map(lambda a: {"do": a}),
         frames.map(lambda f: {"do": "chunk", "frames": f}),
         closing_chunk.map(lambda f: {"do": "chunk", "frames": f}),
+        st.sampled_from([40, 400, 3000, 30000]).map(lambda d: {"do": "stall", "for": d}),
     )
     ticks = st.one_of(
         st.integers(0, 48),
@@ -816,6 +831,20 @@ def pair_fault_sweep(sc: dict, causes: list[dict]):
                     yield {**sc, "events": [{**c1, "it": k1}, {**c2, "it": k2}]}
 
 
+def stall_sweep(scenarios: list[dict] | None = None):
+    """The peer stops reading at iteration k (writes queue up in the transport; a close then cannot flush), and a
+    close cause follows 0..3 iterations later."""
+    causes = [{"do": "chunk", "frames": ["discreq"]}, {"do": "chunk", "frames": ["discreq", "state"]}, {"do": "force"}, {"do": "disconnect"},
+              {"do": "eof"}, {"do": "reset"}, {"do": "chunk", "frames": ["garbage"]}, {"do": "cancel"}]
+    for sc in scenarios or golden_scenarios():
+        n = golden_iterations(sc)
+        for k in range(2, n + 1):
+            yield {**sc, "events": [{"do": "stall", "it": k, "for": 6000}]}
+            for dk in (0, 1, 2, 3):
+                for c in causes:
+                    yield {**sc, "events": [{"do": "stall", "it": k, "for": 6000}, {**c, "it": k + dk}]}
+
+
 def hello_trailer_sweep():
     """Device answers the hello with extra frames in the same chunk / split chunks."""
     trailers = [[f] for f in sorted(CLOSING_FRAMES)] + [
@@ -831,3 +860,7 @@ def hello_trailer_sweep():
                         if cuts:
                             c["hello_cuts"] = cuts
                         yield c
+                        if cuts is None or cuts == [16]:
+                            # ... while the peer has stopped reading (the client's answer / close cannot be flushed)
+                            for at in (17, 18, 19):
+                                yield {**c, "events": [{"do": "stall", "at": at, "for": 6000}]}
